@@ -1047,6 +1047,54 @@ static void tracer_delegate_part(Rng &r, const RatioSet &rs, size_t spans)
       R.violation("tracer-root-follows-sampler", cls,
                   "sampler decided " + std::string(decision_name(rec->last_decision)) + " for trace id " + id_hex(sc.trace_id()) +
                       ", started span has sampled=" + (sc.IsSampled() ? "1" : "0"));
+    if (!via_parent_based)
+    {
+      // Not parent-based: the sampler alone decides, also for a span with a valid parent - sampled or not, remote
+      // or local, any flags byte (always-on stays constant, the ratio decides on the parent's trace id, a scripted
+      // delegate is obeyed).  Added after the seeded change C12-w4-1 (a Tracer fast path drops children of
+      // unsampled parents without asking the sampler).
+      const trace_api::TraceId &pid = rs.ids[r.below(rs.ids.size())].id;
+      Parent p                      = gen_parent(r, pid, 1);
+      if (p.model_valid)
+      {
+        trace_api::StartSpanOptions co;
+        co.parent  = p.ctx;
+        int calls1 = rec->calls;
+        auto child = tracer->StartSpan("child-of-foreign-parent", co);
+        auto cc    = child->GetContext();
+        count("tracer_nonparentbased_children");
+        count(p.sampled ? "tracer_nonparentbased_children_of_sampled" : "tracer_nonparentbased_children_of_unsampled");
+        std::string ccls = dkind + (p.sampled ? ":parent-sampled" : ":parent-unsampled");
+        if (rec->calls != calls1 + 1)
+          R.violation("sampler-decides-for-children", ccls,
+                      "sampler consulted " + std::to_string(rec->calls - calls1) + " time(s) for a child of a valid parent (flags " +
+                          std::to_string(p.flags) + ")");
+        else
+        {
+          bool cwant = rec->last_decision == Decision::RECORD_AND_SAMPLE;
+          if (cc.IsSampled() != cwant)
+            R.violation("sampler-decides-for-children", ccls,
+                        "sampler decided " + std::string(decision_name(rec->last_decision)) + ", child of parent flags=" +
+                            std::to_string(p.flags) + " has sampled=" + (cc.IsSampled() ? "1" : "0"));
+        }
+        bool twin_known = dkind == "always-on" || dkind == "always-off" || dkind == "ratio";
+        if (twin_known)
+        {
+          bool twant = dkind == "always-on";
+          if (dkind == "ratio")
+          {
+            trace_sdk::TraceIdRatioBasedSampler twin(ratio);
+            twant = ask(twin, cc.trace_id()) == Decision::RECORD_AND_SAMPLE;
+          }
+          if (cc.IsSampled() != twant)
+            R.violation("sampler-decides-for-children", ccls + "-twin",
+                        dkind + " (ratio " + dbl(ratio) + ") decides " + (twant ? "sample" : "drop") + " for trace id " +
+                            id_hex(cc.trace_id()) + ", child of parent flags=" + std::to_string(p.flags) + " has sampled=" +
+                            (cc.IsSampled() ? "1" : "0"));
+        }
+        child->End();
+      }
+    }
     if (via_parent_based)
     {
       // a local child: explicit parent context, or the span made active on this thread
